@@ -718,6 +718,7 @@ def r10(ctx):
     from . import c14
     sub = type(ctx)(ctx.prop, ctx.facts)
     sub.guard("R14.2", "flatten", c14.r2_flatten, sub)
+    sub.guard("R14.3", "constructors", c14.r3_constructors, sub)      # `ones(shape)` is the derivative of the identity activation; gradients are built with Tensor::{single,triple,..}
     bad = [o for o in sub.obligations if o["status"] != "ok"]
     for o in bad:
         ctx.bad("R01.10", "helper:" + o["instance"], o["key"].split("/", 3)[-1], o["where"], o["detail"])
